@@ -111,6 +111,14 @@ def make_spec(rng, gen, kind, nsend=None, fail=None, shape=None):
     spec["refuse"] = rng.choice([0, 0, 1, 2])
     if shape == "unconnected":
         spec["no_connect"] = True
+    if shape == "close":
+        # close() while sends are pending/in flight. A connect() racing with close() is C14's subject (F-closerace),
+        # so faults are only scripted when CLOSED is set before any send has run (close_after = 0).
+        spec["close_after"] = 0 if spec["fail"] else rng.choice([0, 1, 2, 3, 5])
+        if spec["fail"] and spec["status_cb"] in ("sleep", "yield"):
+            spec["status_cb"] = "ret"
+        spec["refuse"] = 0
+        spec["settle"] = 50.0
     return spec
 
 
@@ -118,16 +126,15 @@ def make_spec(rng, gen, kind, nsend=None, fail=None, shape=None):
 def _fresh_packets(kind, msgs_in_call_order):
     """What a fresh encoder of this client kind produces for the messages, in the order send() encoded them."""
     from nmea2000.encoder import NMEA2000Encoder
-    from nmea2000.message import NMEA2000Message
     enc = NMEA2000Encoder()
     fn = {"ebyte": enc.encode_ebyte, "yd": enc.encode_yacht_devices, "waveshare": enc.encode_usb}.get(kind)
     out = []
-    for js in msgs_in_call_order:
+    for s in msgs_in_call_order:
         if fn is None:
             out.append(None)              # a client without an encoder: every message is unsendable
             continue
         try:
-            out.append([bytes(p) for p in fn(NMEA2000Message.from_json(js))])
+            out.append([bytes(p) for p in fn(V.load_msg(s))])
         except ValueError:
             out.append(None)
     return out
@@ -144,7 +151,7 @@ def oracle(spec, res):
     e_ = next(i for i, e in enumerate(ev) if e[0] == "end")
     body = ev[b + 1:e_]
     order = [e[1] for e in body if e[0] == "enc"]
-    exp_list = _fresh_packets(kind, [spec["sends"][i]["msg"] for i in order])
+    exp_list = _fresh_packets(kind, [spec["sends"][i] for i in order])
     exp = dict(zip(order, exp_list))
     log = [(w, i, bytes.fromhex(h)) for w, i, h in res["bytelog"]]
     # 1. contiguity
@@ -165,23 +172,27 @@ def oracle(spec, res):
         want = exp[i]
         if want is None:
             if got:
-                return "bad-message-written", f"send #{i} ({spec['sends'][i]['what']}) is unencodable but {len(got)} packet(s) were written"
+                return "bad-message-written", f"send #{i} ({spec['sends'][i].get('what', '?')}) is unencodable but {len(got)} packet(s) were written"
             continue
         if i in failed:
             if got != want[:len(got)]:
                 return "bytes-mismatch", f"send #{i}: bytes written before the fault are not a prefix of the encoder's packets"
         elif got != want:
-            return ("bytes-mismatch", f"send #{i} ({spec['sends'][i]['what']}): wrote {[p.hex() for p in got][:8]}, "
+            return ("bytes-mismatch", f"send #{i} ({spec['sends'][i].get('what', '?')}): wrote {[p.hex() for p in got][:8]}, "
                                       f"the encoder produces {[p.hex() for p in want][:8]}")
     f = res["final"]
     st = [e[1] for e in body if e[0] == "status"]
     any_fault = bool(failed) or spec.get("no_connect")
     if not all(f["sends_done"]):
         return "send-stuck", f"send() calls did not return: {f['sends_done']}"
+    if spec.get("close_after") is not None:
+        return None          # close() during the sends: only contiguity and exactness are claimed (C14 owns the rest)
+    if not all(f["sends_done"]):
+        return "send-stuck", f"send() calls did not return: {f['sends_done']}"
     # 3. bad messages are harmless (no fault scripted/triggered in this session)
     if not any_fault:
         if st or f["state"] != "CONNECTED" or f["nopen"] != 1 or f["nconnect"] != 1 or not f["rx_alive"] or not f["consumer_alive"]:
-            bad = [spec["sends"][i]["what"] for i in order if exp[i] is None]
+            bad = [spec["sends"][i].get("what", "?") for i in order if exp[i] is None]
             return ("bad-message-disturbs",
                     f"no write failed, yet status trace {st}, state {f['state']}, {f['nopen']} connection(s), "
                     f"{f['nconnect']} connect() call(s); unencodable messages in the session: {bad}")
@@ -205,7 +216,7 @@ def _witness(spec, res, verdict):
     key = f"tx:{verdict[0]}" + (f":{spec['kind']}" if verdict[0] != "interleaved" else "")
     return {"key": key, "kind": "tx", "spec": spec, "schedule": sched,
             "bytelog": res.get("bytelog", [])[:40],
-            "what": f"{spec['kind']} client, sends {[s['what'] for s in spec['sends']]}, status callback "
+            "what": f"{spec['kind']} client, sends {[s.get('what', '?') for s in spec['sends']]}, status callback "
                     f"'{spec.get('status_cb')}', fault {spec.get('fail')}: {verdict[1]}"}
 
 
@@ -262,6 +273,8 @@ def _specs(ctx, gen, per):
         for fail in ("w", "d", "dd"):
             specs.append(make_spec(rng, gen, kind, fail=fail))
         specs.append(make_spec(rng, gen, kind, shape="unconnected", fail=False))
+        for fail in ("w", "dd", None):
+            specs.append(make_spec(rng, gen, kind, shape="close", fail=fail))
         for _ in range(per):
             specs.append(make_spec(rng, gen, kind))
     return specs
